@@ -207,6 +207,7 @@ pub fn run_scenario(sc: &Scenario, rng: &mut Rng, keep_wire: bool) -> Outcome {
     let budget: u64 = (total_item_bytes as u64) * (2 + 16 / min_chunk as u64) + 2_000_000;
     let is_play = sc.mode == Mode::Play;
     let expected_items = sc.items.len();
+    let tiny_window = sc.client_cfg.window_ack_size < 64 || sc.server_cfg.window_ack_size < 64;
 
     loop {
         o.steps += 1;
@@ -417,6 +418,12 @@ pub fn run_scenario(sc: &Scenario, rng: &mut Rng, keep_wire: bool) -> Outcome {
         .min(avail);
         // byte-by-byte over megabytes is too slow to be useful: after a while deliver in pieces
         let n = if sc.sched == 0 && o.steps > 60_000 { avail.min(4096) } else { n };
+        // With a tiny acknowledgement window every input call is answered by an Acknowledgement
+        // packet (8-16 bytes).  If those are delivered in pieces smaller than themselves the two
+        // sessions acknowledge each other's acknowledgements with amplification > 1 and the pipes
+        // grow without bound - a property of the protocol at window 1, not of the library - so
+        // the network never fragments below 32 bytes in that configuration.
+        let n = if tiny_window { n.max(32).min(avail) } else { n };
         o.handle_input_calls += 1;
         if to_server {
             let piece: Vec<u8> = c2s.drain(..n).collect();
